@@ -28,6 +28,7 @@ RE_HTTP_ARRAY_INDEX = re.compile("\\[([0-9]+)\\]")
 from mmap import mmap
 from collections import defaultdict
 
+from spyne import BODY_STYLE_BARE
 from spyne.util import six
 from spyne.util.six.moves.collections_abc import Iterable as AbcIterable
 
@@ -89,6 +90,13 @@ class HierDictDocument(DictDocument):
             logger.debug("Request: %r", doc)
 
             class_name = self.get_class_name(body_class)
+            if message is self.REQUEST and \
+                              ctx.descriptor.body_style is BODY_STYLE_BARE:
+                # the request was dispatched on its only key, the method name.
+                # in bare mode that is the sub_name of the argument type, not
+                # its type name.
+                class_name, = doc.keys()
+
             if self.ignore_wrappers:
                 doc = doc.get(class_name, None)
 
